@@ -184,6 +184,8 @@ KEYWORDS = [
     G('kw-sep', [Rule('M', Asg('xs', '+=', INT, sep=Str('and')))], tags=['kw']),
     G('kw-regex', [Rule('M', S(Str('b'), Asg('h', '=', Re(r'x[a-c]+')), Opt(Str('end'))))], tags=['kw']),
     G('kw-unicode', [Rule('M', S(Str('é'), Asg('x', '=', ID)))], tags=['kw']),
+    G('kw-escaped', [Rule('M', S(Str('fi', spelling='f\\x69'), Asg('x', '=', ID),
+                                 Opt(S(Str('é', spelling='\\u00e9'), Asg('y', '=', ID)))))], tags=['kw']),
     G('kw-digit-tail', [Rule('M', S(Str('k1'), Asg('x', '=', INT), Str('_e')))], tags=['kw']),
     G('kw-not-pred', [Rule('M', S(Star(S(Not_(Str('end')), Asg('ws', '+=', ID))), Str('end')))], tags=['kw']),
     G('kw-choice-order', [Rule('M', Plus(A(Asg('ks', '+=', Str('do')), Asg('ns', '+=', ID))))], tags=['kw']),
